@@ -1,7 +1,7 @@
 (* Extraction of the REPEX bookkeeping model: the trace acceptor used by C03, C04, C05, C14, C17.
    Directives: ExtrOcamlBasic only. *)
 From Coq Require Import ZArith QArith List Extraction ExtrOcamlBasic.
-From Inf Require Import base.ExtrBase model.RepexM.
+From Inf Require Import base.ExtrBase model.RepexM model.MatchM.
 Extraction Language OCaml.
 Extraction "extract/repex_model.ml" extr_anchor step run pick pick_lock treat_output sort_trajstate
-  assign_engines first_bad pick_enabled wij is_locked size results_of.
+  assign_engines first_bad pick_enabled wij is_locked size results_of step_m matb stair_state.
